@@ -92,7 +92,8 @@ def accessor_rules():
 def lower_token_exprs():
     """rules shared by the interpreter and the compiled matchers: accessor calls on a Token pointer"""
     return [
-        (r'(\w+)->str\(\)\s*==\s*MatchCompiler::makeConstString\(("(?:[^"\\]|\\.)*")\)', r'Token_streq(\1, \2)', 0),
+        # std::string == MatchCompiler::ConstString<n>: the real operator== / equalN<n> of lib/matchcompiler.h (extracted below), n = sizeof(literal)
+        (r'(\w+)->str\(\)\s*==\s*MatchCompiler::makeConstString\(("(?:[^"\\]|\\.)*")\)', r'MC_eq(\1->mStr, \2, sizeof(\2))', 0),
         (r'(\w+)->str\(\)\s*==\s*("(?:[^"\\]|\\.)*")', r'Token_streq(\1, \2)', 0),
         (r'(\w+)->str\(\)\.(?:size|length)\(\)', r'\1->mStrLen', 0),
         (r'(\w+)->str\(\)\.c_str\(\)', r'\1->mStr', 0),
@@ -100,6 +101,26 @@ def lower_token_exprs():
         (r'(\w+)->(is[A-Z]\w*|tokType|varId|next)\(\)', r'Token_\2(\1)', 0),
         (r'\bToken::(e[A-Z]\w*)\b', r'Token_\1', 0),
     ]
+
+
+def matchcompiler_h(kb):
+    """operator==(const std::string&, ConstString<n>) and equalN<n> of lib/matchcompiler.h, the comparison every compiled
+    matcher uses for literal words; the template parameter n becomes a run-time argument."""
+    src = extract.strip_comments(extract.read("lib/matchcompiler.h"))
+    g = re.search(r'template<unsigned int n>\s*inline bool equalN\(const char s1\[\], const char s2\[\]\)\s*\{(.*?)\n    \}', src, re.S)
+    b = re.search(r'template<>\s*inline bool equalN<0>\(const char\s*\[\], const char\s*\[\]\)\s*\{(.*?)\n    \}', src, re.S)
+    o = re.search(r'template<unsigned int n>\s*inline bool operator==\(const std::string\s*&\s*s1, ConstString<n> const\s*&\s*s2\)\s*\{(.*?)\n    \}', src, re.S)
+    if not (g and b and o):
+        raise extract.ExtractError("lib/matchcompiler.h: equalN<n> / equalN<0> / operator== not found in the expected shape")
+    rules = [(r'\bequalN<n-1>\(', 'equalN(n - 1, ', 0), (r'\bequalN<n>\(', 'equalN(n, ', 0), (r'\bs1\.c_str\(\)', 's1', 0), (r'\bstd::(strncmp|strcmp|memcmp)\b', r'\1', 0)]
+    gen, _ = extract.apply_rules(g.group(1), rules, "matchcompiler.h equalN<n>")
+    base, _ = extract.apply_rules(b.group(1), rules, "matchcompiler.h equalN<0>")
+    op, _ = extract.apply_rules(o.group(1), rules, "matchcompiler.h operator==")
+    text = ("static _Bool equalN(unsigned n, const char *s1, const char *s2) { if (n == 0) { %s } %s }\n"
+            "static _Bool MC_eq(const char *s1, const char *s2, unsigned n) { %s }\n" % (base.strip(), gen.strip(), op.strip()))
+    extract.residue_scan(text, "matchcompiler.h")
+    kb.functions.append({"name": "MatchCompiler::operator==(std::string, ConstString<n>) / equalN<n>", "where": "lib/matchcompiler.h", "sha": "", "kind": "function"})
+    return text
 
 
 def source_words():
@@ -182,6 +203,14 @@ static void mk_token(struct Token *t, char *buf, size_t slen) {
     __CPROVER_assume(t->mVarId == 0 || NAME_TYPE(t->mTokType));
     TOKTYPE_INVARIANT(t);
 }
+/* same for a token whose spelling is already in place */
+static void mk_fields(struct Token *t) {
+    t->mVarId = nondet_int(); t->mTokType = (enum TokType)nondet_int(); t->mFlags = nondet_biguint();
+    __CPROVER_assume(t->mVarId >= 0 && t->mTokType >= 0 && t->mTokType <= Token_eNone);
+    __CPROVER_assume(Token_getFlag(t, fIsName) == (NAME_TYPE(t->mTokType)));
+    __CPROVER_assume(t->mVarId == 0 || NAME_TYPE(t->mTokType));
+    TOKTYPE_INVARIANT(t);
+}
 '''
 
 
@@ -196,7 +225,7 @@ def build(ctx):
         if not mo:
             raise extract.ExtractError("token.h: flag %s not found" % nm)
         fl[nm] = int(mo.group(1))
-    out = [_common.BASE, "enum TokType %s;\n" % tt, "".join("#define %s (1ULL << %d)\n" % (k, v) for k, v in fl.items()), PRELUDE]
+    out = [_common.BASE, "enum TokType %s;\n" % tt, "".join("#define %s (1ULL << %d)\n" % (k, v) for k, v in fl.items()), PRELUDE + matchcompiler_h(kb)]
     # accessors from token.h
     for name, cty in ACCESSORS:
         loc = extract.locate_function("lib/token.h", r'^\s*bool\s+%s\s*\(\s*\)\s*const' % name)
@@ -320,6 +349,25 @@ def build(ctx):
                       "    g_in_shape = shape; g_in_varid = varid; g_in_type0 = t0.mTokType; g_in_varid0 = t0.mVarId; g_in_type1 = t1.mTokType; g_in_varid1 = t1.mVarId;\n"
                       "    for (int i = 0; i <= SMAXALL; i++) { g_in_str0[i] = b0[i]; g_in_str1[i] = b1[i]; }\n%s\n}\n#endif\n" % (hname.upper(), hname.upper(), min(maxlen, 6), hname, hname.upper(), "\n".join(body)))
         groups.append((hname, grp, min(maxlen, 6), max(len(w) for w in grp) + 3))
+    # probes for long literal alternatives (longer than the symbolic token strings above): the token spelling is the literal with one
+    # position replaced by an arbitrary character, or extended by one character - exact match, near miss and prefix cases
+    alts = sorted({a for w in usable for a in (w[2:] if w.startswith("!!") else w).split("|") if a and "%" not in a and not a.startswith("[") and len(a) >= 7})
+    long16 = [a for a in alts if len(a) >= 16]
+    rest = [a for a in alts if a not in long16]
+    probe = alts if ctx.tier == "thorough" else long16 + sorted(rng.sample(rest, min(6, len(rest))))
+    probes = []
+    for pi, a in enumerate(probe):
+        nr += 1
+        pieces.append(lower_compiled(compile_word(a, nr, False), nr))
+        L = len(a)
+        pieces.append("#if defined(H_PROBE_%d)\nvoid h_probe_%d(void) {\n"
+                      "    struct Token t; static char pb[%d] = \"%s\"; size_t k = nondet_size_t(); __CPROVER_assume(k <= %d); char c = nondet_char(); __CPROVER_assume(c != ' ');\n"
+                      "    if (k < %d) { __CPROVER_assume(c != 0); pb[k] = c; t.mStrLen = %d; } else { pb[%d] = c; pb[%d] = 0; t.mStrLen = c ? %d : %d; }\n"
+                      "    t.mStr = pb; t.mNext = NULL; mk_fields(&t); int varid = nondet_int(); __CPROVER_assume(varid > 0); verif_thrown = 0;\n"
+                      "    _Bool x = Token_Match(&t, \"%s\", varid); _Bool y = match%d(&t, varid);\n"
+                      "    __CPROVER_assert(x == y, \"pattern \\\"%s\\\" on a token spelled like the literal (one character changed or appended): compiled matcher == Token::Match\");\n}\n#endif\n"
+                      % (pi, pi, L + 2, a, L, L, L, L, L + 1, L + 1, L, a, nr, a))
+        probes.append((pi, a))
     kb.ctext = "".join(pieces) + r'''
 void h_firstWordEquals(void) { const char *a; const char *b; (void)firstWordEquals(a, b); }
 void h_chrInFirstWord(void) { const char *a; (void)chrInFirstWord(a, nondet_char()); }
@@ -332,6 +380,10 @@ void h_chrInFirstWord(void) { const char *a; (void)chrInFirstWord(a, nondet_char
                # Token_Match.4 is the outer word loop of Token::Match (loops are numbered by back edge): a one- or two-word pattern needs at most 4
                # iterations; bounding it keeps the pattern pointer from being explored symbolically (an insufficient bound shows as *undecided*)
                note="words %s: token lists of 0..2 tokens (+ sentinel), token strings 1..%d chars, type/flags/varId symbolic; varid > 0" % (" ".join(grp), sl))
+    for pi, a in probes:
+        kb.job("probe.%d" % pi, "h_probe_%d" % pi, kind="bounded", props=["C33"], flags=["--sat-solver", "minisat2"], unwind=len(a) + 8, unwindset=["Token_Match.4:4"],
+               defines=["NOCONTRACT", "H_PROBE_%d" % pi], timeout=300,
+               note="pattern word %s on a token spelled like it with one character replaced or appended; type/flags/varId symbolic" % a)
     kb.assumptions += ["token invariant (assumed, established by Token::tokType(t)/update_property_info which are not verified): fIsName == (type is a name type); varId != 0 => name type; "
                        "for every spelling in the match compiler's tokTypes table the token has one of the listed types; token strings are non-empty and contain no NUL or space",
                        "varid > 0 when the pattern is evaluated (both sides treat varid 0 as an internal error at different points)",
